@@ -3,8 +3,8 @@
   `src/prompt_toolkit/key_binding/bindings/vi.py`:
 
     * `TextObject.sorted / operator_range / get_line_numbers / cut`
-      (the code as of /repo 45b8a77, i.e. after the fixes 754945d, 91ece3a, 3d7917f, fc80c4b,
-      0c4b424: `TextObject.spans_nothing`, failing `j` / `k`, registers also store one empty
+      (the code as of /repo 71bdcd7, i.e. after the fixes 754945d, 91ece3a, 3d7917f, fc80c4b,
+      0c4b424, 46db376, 71bdcd7: `TextObject.spans_nothing`, failing `j` / `k`, registers also store one empty
       line, LINES cut text keeps a selected empty last line; the BLOCK type that only visual
       block selections produce is not modelled)
     * `Document.cut_selection` / `selection_ranges` for a CHARACTERS / LINES selection in Vi mode
@@ -194,13 +194,21 @@ def store (s : St) (reg : Option Char) (c : Clip) : St :=
     | some r => if isRegName r then { s with regs := regSet s.regs r c } else s
     | none => { s with clip := c }
 
-/-- `d` / `c` / `"xd` / `"xc` -/
+/-- `with_register and event.key_sequence[1].data not in vi_register_names` -/
+def badReg : Option Char → Bool
+  | some r => !isRegName r
+  | none => false
+
+/-- `d` / `c` / `"xd` / `"xc` (as of 46db376: a register name that does not exist — `"Ad` — makes
+    the operator return before anything is cut, like the yank operator) -/
 def opDelete (s : St) (o : TextObject) (reg : Option Char) (change : Bool) : Option St :=
-  match cut s.doc o with
-  | none => none
-  | some (d', c) =>
-    let s1 := store { s with text := d'.text, cur := d'.cur } reg c
-    some { s1 with insert := s1.insert || change }
+  if badReg reg then some s
+  else
+    match cut s.doc o with
+    | none => none
+    | some (d', c) =>
+      let s1 := store { s with text := d'.text, cur := d'.cur } reg c
+      some { s1 with insert := s1.insert || change }
 
 /-- `y` / `"xy` -/
 def opYank (s : St) (o : TextObject) (reg : Option Char) : Option St :=
@@ -377,7 +385,67 @@ def enclosingLeft (d : Doc) (l r : Char) : Option Int :=
   if currentChar d = some l then some 0
   else (walk r l 1 1 d.before.reverse).map fun (k : Nat) => -(k : Int)
 
+
+/-- `find_previous_word_ending(count, WORD)` (count ≥ 0) -/
+def findPreviousWordEnding (sp : Char → Bool) (d : Doc) (count : Nat) (big : Bool) : Option Int :=
+  -- text_before_cursor = self.text_after_cursor[:1] + self.text_before_cursor[::-1]
+  let ms := runs (cls sp big) (d.after.take 1 ++ d.before.reverse)
+  -- `if i == 0 and match.start(1) == 0: count += 1`
+  let count' := match ms with
+    | (0, _) :: _ => count + 1
+    | _ => count
+  (nth ms count').map fun (m : Nat × Nat) => -(m.1 : Int) + 1
+
+/-- `str.rstrip()` -/
+def rstrip (isSpace : Char → Bool) (l : Text) : Text := (l.reverse.dropWhile isSpace).reverse
+
+/-- the four pairs of `find_matching_bracket_position`, in the order the code tries them -/
+def bracketPairs : List (Char × Char) := [('(', ')'), ('[', ']'), ('{', '}'), ('<', '>')]
+
+/-- `find_matching_bracket_position()` -/
+def matchingBracketGo (d : Doc) : List (Char × Char) → Int
+  | [] => 0
+  | (a, b) :: rest =>
+    if currentChar d = some a then orZero' (enclosingRight d a b)
+    else if currentChar d = some b then orZero' (enclosingLeft d a b)
+    else matchingBracketGo d rest
+where orZero' : Option Int → Int
+  | some v => v
+  | none => 0
+
+def matchingBracket (d : Doc) : Int := matchingBracketGo d bracketPairs
+
+/-- the `match_func` of `start_of_paragraph` / `end_of_paragraph`: `not text or text.isspace()` -/
+def blankLine (isSpace : Char → Bool) (l : Text) : Bool := l.isEmpty || l.all isSpace
+
+/-- the loop of `find_next_matching_line` / `find_previous_matching_line` over the lines below /
+    above the cursor (nearest first): index of the line that `result` names when the loop ends -/
+def scanMatch (blank : Text → Bool) : List Text → Nat → Int → Option Nat → Option Nat
+  | [], _, _, res => res
+  | l :: rest, idx, count, res =>
+    let res' := if blank l then some idx else res
+    let count' := if blank l then count - 1 else count
+    if count' = 0 then res' else scanMatch blank rest (idx + 1) count' res'
+
+/-- `start_of_paragraph(count, before)` -/
+def startOfParagraph (isSpace : Char → Bool) (d : Doc) (count : Nat) (before : Bool) : Int :=
+  match scanMatch (blankLine isSpace) ((lines d.text).take d.row).reverse 0 count none with
+  | some i =>          -- line_index = -1 - i ; get_cursor_up_position(count = -line_index)
+    min 0 ((rowColToIndex d.text (d.row - (i + 1)) d.col : Int) - d.cur + (if before then 0 else 1))
+  | none => -(d.cur : Int)
+
+/-- `end_of_paragraph(count, after)` -/
+def endOfParagraph (isSpace : Char → Bool) (d : Doc) (count : Nat) (after : Bool) : Int :=
+  match scanMatch (blankLine isSpace) ((lines d.text).drop (d.row + 1)) 0 count none with
+  | some i =>          -- line_index = 1 + i ; get_cursor_down_position(count = line_index)
+    max 0 ((rowColToIndex d.text (d.row + (i + 1)) d.col : Int) - d.cur - (if after then 0 else 1))
+  | none => (d.after.length : Int)
+
 /-! ### text objects -/
+
+/-- `H` `M` `L` -/
+inductive Screen | top | middle | bottom
+deriving Repr, DecidableEq
 
 inductive Motion
   | h | l | zero | dollar | caret
@@ -390,6 +458,25 @@ inductive Motion
   /-- `;` (`reverse = false`) / `,` (`reverse = true`): repeat the last `f F t T`;
       `last` = `vi_state.last_character_find` as `(character, backwards)` -/
   | repeatFind (last : Option (Char × Bool)) (reverse : Bool)
+  /-- `ge` / `gE` -/
+  | ge (big : Bool)
+  /-- `g_` -/
+  | gUnder
+  /-- `|` -/
+  | bar
+  /-- `%`; `argPresent` = `event._arg` is set (a count was typed before the operator or the
+      motion): then `N%` is the linewise jump to N percent of the lines -/
+  | percent (argPresent : Bool)
+  /-- `{` and `}` -/
+  | braceUp | braceDown
+  /-- `ap` -/
+  | ap
+  /-- `H` `M` `L`; `row` = the line `Window.render_info` reports (first visible line after the
+      scroll offset / centre line / last visible line before the scroll offset), `none` when the
+      window has not been rendered -/
+  | screen (which : Screen) (row : Option Nat)
+  /-- `gm`; `width` = `render_info.window_width` -/
+  | gm (width : Option Nat)
   | raw (o : TextObject)
 deriving Repr, DecidableEq
 
@@ -466,6 +553,42 @@ def textObject (isSpace sp : Char → Bool) (d : Doc) (count : Nat) : Motion →
         match findFwd d c true count with
         | some p => if p ≠ 0 then { start := p, type := .inclusive } else { start := 0 }
         | none => { start := 0 }
+  | .ge big =>
+    match findPreviousWordEnding sp d count big with
+    | some p => { start := p - 1, type := .inclusive }
+    | none => { start := 0 }                                   -- no previous word: the motion fails
+  | .gUnder =>
+    if (currentLine d).isEmpty then { start := 0 }             -- empty line: nothing to span
+    else { start := (((rstrip isSpace (currentLine d)).length - 1 : Nat) : Int) - d.col, type := .inclusive }
+  | .bar => { start := ((min (currentLine d).length (count - 1) : Nat) : Int) - d.col }
+  | .percent argPresent =>
+    if argPresent then
+      if 0 < count ∧ count ≤ 100 then
+        -- int((event.arg * line_count - 1) / 100)
+        { start := (rowColToIndex d.text ((count * lineCount d.text - 1) / 100) 0 : Int) - d.cur,
+          type := .linewise }
+      else { start := 0 }
+    else
+      if matchingBracket d ≠ 0 then { start := matchingBracket d, type := .inclusive } else { start := 0 }
+  | .braceUp => { start := startOfParagraph isSpace d count true }
+  | .braceDown => { start := endOfParagraph isSpace d count true }
+  | .ap => { start := startOfParagraph isSpace d 1 false, stop := endOfParagraph isSpace d count false }
+  | .screen which row =>
+    match row with
+    | some r => { start := (rowColToIndex d.text r 0 : Int) - d.cur, type := .linewise }
+    | none =>
+      match which with
+      | .bottom => { start := (d.after.length : Int), type := .linewise }
+      | _ => { start := -(d.before.length : Int), type := .linewise }
+  | .gm width =>
+    match width with
+    | some w =>
+      -- (71bdcd7) `if w and w.render_info and buff.document.current_line:`
+      --           start-of-line + int(min(width / 2, len(current_line) - 1))
+      if (currentLine d).isEmpty then { start := 0 }
+      else { start := -((lineBefore d).length : Int) + (min (w / 2) ((currentLine d).length - 1) : Nat),
+             type := .inclusive }
+    | none => { start := 0 }
   | .raw o => o
 
 /-- `vi_state.last_character_find = CharacterFind(event.data, backwards)` as set by the
@@ -519,6 +642,89 @@ def run (env : Env) (s : St) (opArg : Option Nat) (op : Op) (motArg : Option Nat
   let count := combineArgs opArg motArg
   applyOp env s op (textObject env.isSpace env.reSpace s.doc count m) count
 
+/-! ### `gq` : `reshape_text` -/
+
+/-- `str.splitlines(True)` for a text whose only line separator is "\n" (the other separators of
+    `splitlines` — \r \v \f \x1c-\x1e \x85     — are outside the modelled alphabet) -/
+def splitlinesKeep : Text → Text → List Text
+  | [], [] => []
+  | [], acc => [acc.reverse]
+  | c :: r, acc => if c = '\n' then (c :: acc).reverse :: splitlinesKeep r [] else splitlinesKeep r (c :: acc)
+
+/-- `str.split()` : the maximal runs of non-whitespace characters -/
+def splitWords (isSpace : Char → Bool) : Text → Text → List Text
+  | [], [] => []
+  | [], acc => [acc.reverse]
+  | c :: r, acc =>
+    if isSpace c then (if acc.isEmpty then splitWords isSpace r [] else acc.reverse :: splitWords isSpace r [])
+    else splitWords isSpace r (c :: acc)
+
+/-- the filling loop of `reshape_text`: words separated by one space, a new line (+ indent) when
+    `len(w) + current_width + 1 > width` -/
+def fillWords (indent : Text) (width : Int) : List Text → Nat → Text
+  | [], _ => []
+  | w :: ws, cw =>
+    if cw ≠ 0 then
+      if (w.length : Int) + cw + 1 > width then '\n' :: indent ++ w ++ fillWords indent width ws w.length
+      else ' ' :: w ++ fillWords indent width ws (cw + 1 + w.length)
+    else w ++ fillWords indent width ws w.length
+
+/-- `reshape_text(buffer, from_row, to_row)`; `tw` = `buffer.text_width or 80` -/
+def reshapeText (env : Env) (tw : Nat) (s : St) (fromRow toRow : Nat) : St :=
+  let ls := splitlinesKeep s.text []
+  let before := ls.take fromRow
+  let after := ls.drop (toRow + 1)
+  let mid := (ls.take (toRow + 1)).drop fromRow
+  match mid with
+  | [] => s
+  | line0 :: _ =>
+    -- re.search(r"^\s*", line0) ; indent = line0[:length].replace("\n", "")
+    let indent := (line0.takeWhile env.reSpace).filter (· != '\n')
+    let words := splitWords env.isSpace mid.flatten []
+    let width : Int := (tw : Int) - indent.length
+    let reshaped := indent ++ fillWords indent width words 0 ++ ['\n']
+    { s with text := before.flatten ++ reshaped ++ after.flatten,
+             cur := (before.flatten ++ reshaped).length }
+
+/-- `gq` (with the `spans_nothing` guard) -/
+def opReshape (env : Env) (tw : Nat) (s : St) (o : TextObject) : Option St :=
+  if spansNothing s.doc o then some s
+  else
+    let ln := getLineNumbers s.doc o
+    if ln.1 < 0 ∨ ln.2 < 0 then none
+    else some (reshapeText env tw s ln.1.toNat ln.2.toNat)
+
+/-- `[count] gq [count] <motion>` -/
+def runReshape (env : Env) (tw : Nat) (s : St) (opArg motArg : Option Nat) (m : Motion) : Option St :=
+  opReshape env tw s (textObject env.isSpace env.reSpace s.doc (combineArgs opArg motArg) m)
+
+/-! ### the doubled linewise forms `>>` `<<` `guu` `gUU` `g~~` (own handlers, not operator + motion) -/
+
+inductive Double | indent | unindent | lower | upper | swap
+deriving Repr, DecidableEq
+
+/-- `Buffer.transform_current_line(f)` : `text[:a] + f(text[a:b]) + text[b:]` with `a`, `b` the
+    start / end of the cursor line; the `text` setter clamps the cursor -/
+def transformCurrentLine (f : Text → Text) (s : St) : St :=
+  let a := s.cur - (lineBefore s.doc).length
+  let b := s.cur + (lineAfter s.doc).length
+  let newText := s.text.take a ++ f ((s.text.take b).drop a) ++ s.text.drop b
+  { s with text := newText, cur := min s.cur newText.length }
+
+/-- `_indent` / `_unindent` (`indent(buffer, row, row + event.arg)`: `count` lines, ONE indent unit)
+    and `_lowercase_line` / `_uppercase_line` / `_swapcase_line` (the count is ignored) -/
+def runDouble (env : Env) (s : St) (k : Double) (count : Nat) : St :=
+  match k with
+  | .indent => indent s s.doc.row (s.doc.row + count) 1
+  | .unindent => unindent env.isSpace s s.doc.row (s.doc.row + count) 1
+  | .lower => transformCurrentLine (env.tf .lower) s
+  | .upper => transformCurrentLine (env.tf .upper) s
+  | .swap => transformCurrentLine (env.tf .swap) s
+
+/-- the `~` operator (registered with the filter `tilde_operator`) is `create_transform_handler`
+    with `str.swapcase`, the same body as `g~` -/
+def tildeOp : Op := .transform .swap
+
 /-- `KeyProcessor._fix_vi_cursor_position`: after every handler in navigation mode the cursor
     is pulled back from the end of a non-empty line. -/
 def fixViCursor (t : Text) (cur : Nat) : Nat :=
@@ -543,6 +749,10 @@ def moveAlone (env : Env) (s : St) (motArg : Option Nat) (m : Motion) : Nat :=
 
 def moveAloneKeys (env : Env) (s : St) (motArg : Option Nat) (m : Motion) : Nat :=
   fixViCursor s.text (moveAlone env (if motArg.isSome then s.fix else s) motArg m)
+
+/-- the key sequence `[count] gq [count] <motion>` (see `runKeys`) -/
+def runReshapeKeys (env : Env) (tw : Nat) (s : St) (opArg motArg : Option Nat) (m : Motion) : Option St :=
+  (runReshape env tw (if opArg.isSome then s.fix else s) opArg motArg m).map St.fix
 
 /-- `[count] f|F|t|T <c>` typed as a movement, then `[count] <operator> [count] ;|,` : the
     character find moves the cursor and leaves `last_character_find` for the repeat motion -/
